@@ -30,8 +30,12 @@ class SymbolicBranch(Exception):
 
 
 class ZB:
-    def __init__(self, e):
+    """z3 boolean; `sh` is the truth value exact arithmetic gives for the sample assignment (None: unknown) —
+    the exploration follows it first, so the first path is the one the lattice arithmetic intends"""
+
+    def __init__(self, e, sh=None):
         self.e = e
+        self.sh = sh
 
     def __bool__(self):
         e = z3.simplify(self.e)
@@ -111,22 +115,29 @@ class ZF:
         return ZF(z3.fpNeg(self.e), -self.sh if self.sh is not None else None)
 
     def __lt__(self, o):
-        return ZB(z3.fpLT(self.e, lift(o)))
+        return ZB(z3.fpLT(self.e, lift(o)), self._cmp(o, lambda x, y: x < y))
 
     def __le__(self, o):
-        return ZB(z3.fpLEQ(self.e, lift(o)))
+        return ZB(z3.fpLEQ(self.e, lift(o)), self._cmp(o, lambda x, y: x <= y))
 
     def __gt__(self, o):
-        return ZB(z3.fpGT(self.e, lift(o)))
+        return ZB(z3.fpGT(self.e, lift(o)), self._cmp(o, lambda x, y: x > y))
 
     def __ge__(self, o):
-        return ZB(z3.fpGEQ(self.e, lift(o)))
+        return ZB(z3.fpGEQ(self.e, lift(o)), self._cmp(o, lambda x, y: x >= y))
 
     def __eq__(self, o):
-        return ZB(z3.fpEQ(self.e, lift(o)))
+        return ZB(z3.fpEQ(self.e, lift(o)), self._cmp(o, lambda x, y: x == y))
 
     def __ne__(self, o):
-        return ZB(z3.Not(z3.fpEQ(self.e, lift(o))))
+        return ZB(z3.Not(z3.fpEQ(self.e, lift(o))), self._cmp(o, lambda x, y: x != y))
+
+    def _cmp(self, o, f):
+        try:
+            so = shadow(o)
+        except Exception:  # noqa
+            return None
+        return None if self.sh is None or so is None else bool(f(self.sh, so))
 
     __hash__ = None
 
@@ -159,15 +170,102 @@ def exact_add(a, b):
     return z3.fpEQ(z3.fpAdd(z3.RTN(), lift(a), lift(b)), z3.fpAdd(z3.RTP(), lift(a), lift(b)))
 
 
-def solve(constraints, timeout_s, wanted):
-    """(status, {name: float}) ; status in sat/unsat/unknown"""
+CVC5 = "/usr/bin/cvc5"
+
+
+def _cvc5_start(smt2, names, timeout_s):
+    """second back end: the same query, as SMT-LIB2 text, handed to the cvc5 binary (a portfolio: z3's FP
+    bit-blasting and cvc5's differ a lot per query).  Returns (Popen, path) or None."""
+    import os
+    import subprocess
+    import tempfile
+
+    if not os.path.exists(CVC5) or os.environ.get("VERIF_NO_CVC5"):
+        return None
+    body = smt2.replace("(check-sat)", "")
+    text = "(set-option :produce-models true)\n(set-logic ALL)\n" + body + "\n(check-sat)\n(get-value (%s))\n" % " ".join(names)
+    keep = os.environ.get("VERIF_KX_KEEP")
+    if keep:
+        with open(os.path.join(keep, "q%d_%d.smt2" % (os.getpid(), int(time.time() * 1000) % 100000000)), "w") as f:
+            f.write(text)
+    fd, path = tempfile.mkstemp(suffix=".smt2", prefix="verif_kx_")
+    with os.fdopen(fd, "w") as f:
+        f.write(text)
+    try:
+        pr = subprocess.Popen([CVC5, "--tlimit=%d" % int(timeout_s * 1000), path], stdout=subprocess.PIPE,
+                              stderr=subprocess.PIPE, text=True)
+    except OSError:
+        os.unlink(path)
+        return None
+    return pr, path
+
+
+def _cvc5_finish(started, wait_s):
+    """-> (status, {name: float}) ; anything unexpected (an `(error` line, a time-out) is `unknown`"""
+    import os
+    import re
+    import struct
+    import subprocess
+
+    pr, path = started
+    try:
+        try:
+            out, err = pr.communicate(timeout=max(0.1, wait_s))
+        except subprocess.TimeoutExpired:
+            pr.kill()
+            pr.communicate()
+            return "unknown", {}
+    finally:
+        try:
+            os.unlink(path)
+        except OSError:
+            pass
+    # cvc5 stops at the first error, so a first line `sat`/`unsat` means every assertion was accepted; the only
+    # error tolerated is the one `get-value` raises after `unsat`
+    first = out.strip().splitlines()[0].strip() if out.strip() else ""
+    if first == "unsat":
+        return "unsat", {}
+    if first != "sat" or "(error" in out or "(error" in err:
+        return "unknown", {}
+    vals = {}
+    for name, sg, ex, mant in re.findall(r"\((\w+) \(fp #b([01]) #b([01]{11}) #(b[01]{52}|x[0-9a-f]{13})\)\)", out):
+        m = mant[1:] if mant[0] == "b" else bin(int(mant[1:], 16))[2:].zfill(52)
+        bits = int(sg + ex + m, 2)
+        vals[name] = struct.unpack(">d", bits.to_bytes(8, "big"))[0]
+    for name, kind in re.findall(r"\((\w+) \(_ (NaN|\+oo|-oo|\+zero|-zero) 11 53\)\)", out):
+        vals[name] = {"NaN": float("nan"), "+oo": float("inf"), "-oo": float("-inf"), "+zero": 0.0, "-zero": -0.0}[kind]
+    return "sat", vals
+
+
+def kill_cvc5(started):
+    import os
+
+    if started:
+        try:
+            started[0].kill()
+            started[0].communicate()
+        except Exception:  # noqa
+            pass
+        try:
+            os.unlink(started[1])
+        except OSError:
+            pass
+
+
+def solve(constraints, timeout_s, wanted, portfolio=True):
+    """(status, {name: float}) ; status in sat/unsat/unknown.  z3 (in process) and cvc5 (sub-process, same
+    SMT-LIB2 text) run side by side; the first sat/unsat wins; a sat model is only ever used as a candidate
+    that the caller replays on the real code, and unsat from either is reported with the back end's name."""
     s = z3.Solver()
     s.set("timeout", int(timeout_s * 1000))
     for c in constraints:
         s.add(c)
+    smt2 = s.to_smt2()
     t0 = time.time()
+    names = [v.e.decl().name() for v in wanted.values() if z3.is_const(v.e)]
+    started = _cvc5_start(smt2, names, timeout_s) if portfolio and len(names) == len(wanted) else None
     r = s.check()
-    out = {"status": str(r), "solve_s": round(time.time() - t0, 2), "smt2": s.to_smt2()[:20000]}
+    out = {"status": str(r), "backend": "z3", "smt2": smt2[:20000]}
     if str(r) == "sat":
         m = s.model()
         vals = {}
@@ -175,6 +273,71 @@ def solve(constraints, timeout_s, wanted):
             val = m.eval(v.e, model_completion=True)
             vals[name] = fp_to_float(val)
         out["model"] = vals
+    if started:
+        if str(r) in ("sat", "unsat"):
+            kill_cvc5(started)
+        else:
+            st, vals = _cvc5_finish(started, timeout_s - (time.time() - t0) + 2)
+            if st == "sat" and set(vals) >= set(names):
+                by_decl = {v.e.decl().name(): k for k, v in wanted.items()}
+                out.update(status="sat", backend="cvc5", model={by_decl[n]: vals[n] for n in names})
+            elif st == "unsat":
+                out.update(status="unsat", backend="cvc5")
+    out["solve_s"] = round(time.time() - t0, 2)
+    if out["status"] == "sat":
+        LAST["backend"] = out["backend"]
+    return out
+
+
+LAST = {"backend": None}
+
+
+def free_vars(e, acc=None):
+    acc = set() if acc is None else acc
+    seen = set()
+
+    def walk(t):
+        if t.get_id() in seen:
+            return
+        seen.add(t.get_id())
+        if z3.is_const(t) and t.decl().kind() == z3.Z3_OP_UNINTERPRETED:
+            acc.add(t.decl().name())
+        for c in t.children():
+            walk(c)
+
+    walk(e)
+    return acc
+
+
+def solve_staged(constraints, timeout_s, wanted, first, tries=4):
+    """two-stage search for a model (refutation only): stage 1 solves the constraints that mention only the
+    variables in `first` (typically the cheap add/mul part that makes the property fail), stage 2 substitutes
+    that model and solves the rest (path conditions with divisions become constant-folded).  A stage-2 unsat
+    only rules out that one stage-1 model: it is blocked and another is tried.  Never returns `unsat`."""
+    t0 = time.time()
+    names = set(first)
+    c1 = [c for c in constraints if free_vars(c) <= names]
+    w1 = {k: v for k, v in wanted.items() if k in names}
+    block = []
+    out = {"status": "unknown", "solve_s": 0.0, "stages": []}
+    for _ in range(tries):
+        left = timeout_s - (time.time() - t0)
+        if left < 2:
+            break
+        r1 = solve(c1 + block, left / 2, w1)
+        out["stages"].append(("first", r1["status"], r1.get("backend"), r1["solve_s"]))
+        if r1["status"] != "sat":
+            break
+        sub = [(wanted[k].e, z3.FPVal(v, F64)) for k, v in r1["model"].items()]
+        c2 = [z3.simplify(z3.substitute(c, *sub)) for c in constraints]
+        w2 = {k: v for k, v in wanted.items() if k not in names}
+        r2 = solve(c2, max(2.0, (timeout_s - (time.time() - t0)) / 2), w2)
+        out["stages"].append(("second", r2["status"], r2.get("backend"), r2["solve_s"]))
+        if r2["status"] == "sat":
+            out.update(status="sat", model=dict(r1["model"], **r2["model"]))
+            break
+        block.append(z3.Or(*[z3.Not(z3.fpEQ(wanted[k].e, z3.FPVal(v, F64))) for k, v in r1["model"].items()]))
+    out["solve_s"] = round(time.time() - t0, 2)
     return out
 
 
@@ -216,7 +379,7 @@ class _Trail:
         s.add(extra)
         return str(s.check()) != "unsat"
 
-    def decide(self, e):
+    def decide(self, e, hint=None):
         i = len(self.taken)
         if i < len(self.prefix):
             d, flippable = self.prefix[i], False
@@ -224,13 +387,13 @@ class _Trail:
             t_ok = self._feasible(e)
             f_ok = self._feasible(z3.Not(e))
             if t_ok and f_ok:
-                d, flippable = True, True
+                d, flippable = (True if hint is None else bool(hint)), True
             elif t_ok:
                 d, flippable = True, False
             else:
                 d, flippable = False, False
         else:
-            d, flippable = True, True
+            d, flippable = (True if hint is None else bool(hint)), True
         self.taken.append((e, d, flippable))
         return d
 
@@ -243,20 +406,26 @@ def _zb_bool(self):
         return False
     if _TRAIL is None:
         raise SymbolicBranch(str(e)[:200])
-    return _TRAIL.decide(e)
+    return _TRAIL.decide(e, getattr(self, "sh", None))
 
 
 ZB.__bool__ = _zb_bool
 
 
-def explore(fn, max_paths=64, base=(), prune_timeout_ms=0):
+EXHAUSTED = {"left": 0}  # paths left unexplored by the last explore_iter (deadline / max_paths)
+
+
+def explore_iter(fn, max_paths=64, base=(), prune_timeout_ms=0, deadline=None):
     """run fn() once per decision sequence; with prune_timeout_ms every new decision is checked against the
     path condition (+ base constraints) and infeasible sides are not explored; yields
-    (path_condition_list, result_or_exception)"""
+    (path_condition_list, result_or_exception), the path the sample assignment takes first"""
     global _TRAIL
     todo = [[]]
-    out = []
-    while todo and len(out) < max_paths:
+    count = 0
+    while todo and count < max_paths:
+        if deadline is not None and time.time() > deadline:
+            EXHAUSTED["left"] = len(todo)
+            return
         prefix = todo.pop()
         _TRAIL = _Trail(prefix, base, prune_timeout_ms)
         try:
@@ -268,11 +437,16 @@ def explore(fn, max_paths=64, base=(), prune_timeout_ms=0):
         finally:
             _TRAIL = None
         pc = [c if d else z3.Not(c) for c, d, _ in taken]
-        out.append((pc, res))
+        count += 1
         for i in range(len(prefix), len(taken)):
             if taken[i][2]:
                 todo.append([d for _, d, _ in taken[:i]] + [not taken[i][1]])
-    return out
+        EXHAUSTED["left"] = len(todo)
+        yield (pc, res)
+
+
+def explore(fn, max_paths=64, base=(), prune_timeout_ms=0):
+    return list(explore_iter(fn, max_paths, base, prune_timeout_ms))
 
 
 class ZI:
@@ -299,22 +473,26 @@ class ZI:
         return ZI(self.e - self._lift(o), (self.sh - so) if self.sh is not None and so is not None else None)
 
     def __lt__(self, o):
-        return ZB(self.e < self._lift(o))
+        return ZB(self.e < self._lift(o), self._cmp(o, lambda x, y: x < y))
 
     def __le__(self, o):
-        return ZB(self.e <= self._lift(o))
+        return ZB(self.e <= self._lift(o), self._cmp(o, lambda x, y: x <= y))
 
     def __gt__(self, o):
-        return ZB(self.e > self._lift(o))
+        return ZB(self.e > self._lift(o), self._cmp(o, lambda x, y: x > y))
 
     def __ge__(self, o):
-        return ZB(self.e >= self._lift(o))
+        return ZB(self.e >= self._lift(o), self._cmp(o, lambda x, y: x >= y))
 
     def __eq__(self, o):
-        return ZB(self.e == self._lift(o))
+        return ZB(self.e == self._lift(o), self._cmp(o, lambda x, y: x == y))
 
     def __ne__(self, o):
-        return ZB(self.e != self._lift(o))
+        return ZB(self.e != self._lift(o), self._cmp(o, lambda x, y: x != y))
+
+    def _cmp(self, o, f):
+        so = self._sh(o)
+        return None if self.sh is None or so is None else bool(f(self.sh, so))
 
     __hash__ = None
     BOUND = 16
@@ -329,7 +507,18 @@ class ZI:
         return ZI(self._lift(o) - self.e, (int(o) - self.sh) if self.sh is not None else None)
 
     def __bool__(self):
-        return bool(ZB(self.e != 0))
+        return bool(ZB(self.e != 0, None if self.sh is None else self.sh != 0))
+
+    def pick(self, lo, hi):
+        """concretise within lo..hi by forking (the value exact arithmetic gives first); None: outside"""
+        cands = []
+        if self.sh is not None:
+            cands = [k for k in (self.sh, self.sh + 1, self.sh - 1) if lo <= k <= hi]
+        cands += [k for k in range(lo, hi + 1) if k not in cands]
+        for k in cands:
+            if ZB(self.e == k, True if self.sh == k else None):  # neighbours of the exact value next
+                return k
+        return None
 
     def __index__(self):
         # the value exact arithmetic gives (shadow) first, then the neighbours
@@ -338,7 +527,7 @@ class ZI:
             cands = [self.sh, self.sh + 1, self.sh - 1]
         cands += [k for k in range(-1, self.BOUND + 1) if k not in cands]
         for k in cands:
-            if ZB(self.e == k):
+            if ZB(self.e == k, None if self.sh is None else self.sh == k):
                 return k
         raise SymbolicBranch("index outside the bound")
 
